@@ -196,15 +196,23 @@ theorem C12_shape_cache_writes :
   refine ⟨by rfl, by rfl, by rfl⟩
 
 /-- TRANSLATOR OBLIGATION: the accumulation loop of `named_decisions` and the dispatch of
-`__getitem__` are the ones `namedDecisions` / `getItem` were written from. -/
+`__getitem__` are the ones `namedDecisions` / `getItem` were written from — `__getitem__` either as
+it is (a name whose decision is `None` falls through to the id table: finding F400, `getItem`) or
+with fix C12-F400 applied (`getItemFixed`). -/
 theorem C12_shape_lookups :
     Pg.C12Gen.namedLoop =
       ["for (spec, dna) in self.to_dict(key_type='dna_spec', value_type='dna', multi_choice_key='parent', include_inactive_decisions=True).items()",
        "if spec.name is not None: ; v = named_decisions.get(spec.name, None) ; if v is None: ; v = dna ; else: ; if not isinstance(dna, list): ; dna = [dna] ; if isinstance(v, list): ; v.extend(dna) ; else: ; v = [v] + dna ; named_decisions[spec.name] = v"] ∧
-    Pg.C12Gen.getItemStmts =
+    (Pg.C12Gen.getItemStmts =
       ["if isinstance(key, (int, slice)): ; return self.children[key]",
-       "if isinstance(key, DNASpec): ; key = key.id ; return self._decision_by_id[key] ; else: ; v = self.named_decisions.get(key, None) ; if v is None: ; v = self._decision_by_id[key] ; return v"] := by
-  refine ⟨by rfl, by rfl⟩
+       "if isinstance(key, DNASpec): ; key = key.id ; return self._decision_by_id[key] ; else: ; v = self.named_decisions.get(key, None) ; if v is None: ; v = self._decision_by_id[key] ; return v"] ∨
+     Pg.C12Gen.getItemStmts =
+      ["if isinstance(key, (int, slice)): ; return self.children[key]",
+       "if isinstance(key, DNASpec): ; key = key.id ; return self._decision_by_id[key] ; else: ; named_decisions = self.named_decisions ; if key in named_decisions: ; return named_decisions[key] ; return self._decision_by_id[key]"]) := by
+  refine ⟨by rfl, ?_⟩
+  first
+    | exact Or.inl (by rfl)
+    | exact Or.inr (by rfl)
 
 /-- Dropping the condition: two decision points at the same location share one key, `to_dict()`
 turns their decisions into a list, and `from_dict` cannot read it back (replayed on the code:
